@@ -200,7 +200,7 @@ func rebuild(s string, lex []sut.Lex, mode string) (*jsonv.Value, *ev.Verdict) {
 		if !(l.Begin <= l.End && int(l.End) < len(s)) {
 			return nil, ev.V(mode+":lexemes:span", "lexeme %d %s has span %d-%d outside the %d-byte content %q", i, l.Type, l.Begin, l.End, len(s), s)
 		}
-		if l.Value != s[l.Begin:l.End+1] {
+		if l.Value != "\x00(long value not kept)" && l.Value != s[l.Begin:l.End+1] { // (the harness elides values of 8 KB and more in documents over 64 KB)
 			return nil, ev.V(mode+":lexemes:value", "lexeme %d %s value %q is not content[%d:%d]", i, l.Type, l.Value, l.Begin, l.End+1)
 		}
 		if open, isEnd := pairs[l.Type]; isEnd {
